@@ -1,0 +1,113 @@
+//go:build verif
+
+// Contracts for the deductive verification in /verif (govc): certificate metadata is a
+// faithful function of the DER bytes (property C06). This file contains comments only; it is
+// compiled only with -tags verif and declares nothing.
+
+package x509
+
+// ---------------------------------------------------------------- fingerprint.go
+// "XFingerprint creates a fingerprint of data using the X hash algorithm": the result is a new
+// slice holding exactly the X digest of the bytes of data (digest functions: uninterpreted
+// spec.md5b/sha1b/sha256b/sha512b of the message contents, /verif/specs/x509meta.smt2, tied to
+// crypto/*.Sum* by the assumed contracts in /verif/extern/x509meta.contracts); data and
+// everything else is unchanged.
+//@ func MD5Fingerprint
+//@   ensures len(result) == 16 && fresh(result)
+//@   ensures forall(k, 0, 16, result[k] == spec.md5b(string(data), k))
+//@   modifies nothing
+//@   terminates
+//@ func SHA1Fingerprint
+//@   ensures len(result) == 20 && fresh(result)
+//@   ensures forall(k, 0, 20, result[k] == spec.sha1b(string(data), k))
+//@   modifies nothing
+//@   terminates
+//@ func SHA256Fingerprint
+//@   ensures len(result) == 32 && fresh(result)
+//@   ensures forall(k, 0, 32, result[k] == spec.sha256b(string(data), k))
+//@   modifies nothing
+//@   terminates
+// (doc comment says "using the SHA256 hash algorithm" - a copy/paste slip in the comment; the
+// name and every caller mean SHA-512, 64 bytes.)
+//@ func SHA512Fingerprint
+//@   ensures len(result) == 64 && fresh(result)
+//@   ensures forall(k, 0, 64, result[k] == spec.sha512b(string(data), k))
+//@   modifies nothing
+//@   terminates
+
+// "Equal returns true if the fingerprints are bytewise-equal."
+//@ func (CertificateFingerprint).Equal
+//@   ensures result <==> eq(f, other)
+//@   modifies nothing
+//@   terminates
+
+// "SubjectAndKey returns a SubjectAndKey for this certificate": a new object carrying the
+// certificate's raw subject, raw SPKI, SPKI+subject fingerprint, key and key algorithm.
+//@ func (*Certificate).SubjectAndKey
+//@   requires c != nil
+//@   ensures result != nil && fresh(result)
+//@   ensures same(result.RawSubject, c.RawSubject) && same(result.RawSubjectPublicKeyInfo, c.RawSubjectPublicKeyInfo)
+//@   ensures same(result.Fingerprint, c.SPKISubjectFingerprint)
+//@   ensures result.PublicKey == c.PublicKey && result.PublicKeyAlgorithm == c.PublicKeyAlgorithm
+//@   modifies nothing
+//@   terminates
+
+// ---------------------------------------------------------------- parseCertificate
+// RFC 6962 3.1 / 3.3: the precertificate poison extension is 1.3.6.1.4.1.11129.2.4.3, the
+// embedded SCT list extension is 1.3.6.1.4.1.11129.2.4.2.
+//@ global len(oidExtensionCTPrecertificatePoison) == 10 && oidExtensionCTPrecertificatePoison[0] == 1 && oidExtensionCTPrecertificatePoison[1] == 3 && oidExtensionCTPrecertificatePoison[2] == 6 && oidExtensionCTPrecertificatePoison[3] == 1 && oidExtensionCTPrecertificatePoison[4] == 4 && oidExtensionCTPrecertificatePoison[5] == 1 && oidExtensionCTPrecertificatePoison[6] == 11129 && oidExtensionCTPrecertificatePoison[7] == 2 && oidExtensionCTPrecertificatePoison[8] == 4 && oidExtensionCTPrecertificatePoison[9] == 3
+//@ global len(oidExtensionSignedCertificateTimestampList) == 10 && oidExtensionSignedCertificateTimestampList[0] == 1 && oidExtensionSignedCertificateTimestampList[1] == 3 && oidExtensionSignedCertificateTimestampList[2] == 6 && oidExtensionSignedCertificateTimestampList[3] == 1 && oidExtensionSignedCertificateTimestampList[4] == 4 && oidExtensionSignedCertificateTimestampList[5] == 1 && oidExtensionSignedCertificateTimestampList[6] == 11129 && oidExtensionSignedCertificateTimestampList[7] == 2 && oidExtensionSignedCertificateTimestampList[8] == 4 && oidExtensionSignedCertificateTimestampList[9] == 2
+//@ pred ctArc(a) = len(a) == 10 && a[0] == 1 && a[1] == 3 && a[2] == 6 && a[3] == 1 && a[4] == 4 && a[5] == 1 && a[6] == 11129 && a[7] == 2 && a[8] == 4
+//@ pred isCTOid(a) = ctArc(a) && (a[9] == 3 || a[9] == 2)
+// two extension values are the same element: same id, criticality and value slices
+//@ pred extSame(x, y) = same(x.Id, y.Id) && x.Critical == y.Critical && same(x.Value, y.Value)
+
+//@ pred tbsOf(x) = unboxed(x, tbsCertificate)
+//@ pred fp16(f, m) = len(f) == 16 && forall(k, 0, 16, f[k] == spec.md5b(m, k))
+//@ pred fp20(f, m) = len(f) == 20 && forall(k, 0, 20, f[k] == spec.sha1b(m, k))
+//@ pred fp32(f, m) = len(f) == 32 && forall(k, 0, 32, f[k] == spec.sha256b(m, k))
+
+//@ func parseCertificate
+//@   requires in != nil && in.TBSCertificate.PublicKey.PublicKey.BitLength >= 0
+//@   maypanic
+//@   modifies all
+//@   uses perreturn
+// -- every fingerprint is computed from exactly the named bytes of the input structure
+//@   at call MD5Fingerprint assert same(arg0, old(in.Raw))
+//@   at call SHA1Fingerprint assert same(arg0, old(in.Raw))
+//@   at call SHA256Fingerprint#1 assert same(arg0, old(in.Raw))
+//@   at call SHA256Fingerprint#2 assert same(arg0, old(in.TBSCertificate.PublicKey.Raw))
+//@   at call SHA256Fingerprint#3 assert same(arg0, old(in.TBSCertificate.Raw))
+// -- loop 1 (CT filter): the kept list holds no CT extension; every kept element is an element
+//    of the original list (at a position not before its own); every non-CT element seen so far
+//    is kept (at a position not after its own)
+//@   loop 1 invariant 0 <= len(extensions) && len(extensions) <= it && it <= len(originalExtensions)
+//@   loop 1 invariant [noct] forall(j, 0, len(extensions), !isCTOid(extensions[j].Id))
+//@   loop 1 invariant [sound] forall(j, 0, len(extensions), exists(i, j, it, extSame(extensions[j], originalExtensions[i])))
+//@   loop 1 invariant [complete] forall(i, 0, it, isCTOid(originalExtensions[i].Id) || exists(j, 0, i+1, j < len(extensions) && extSame(extensions[j], originalExtensions[i])))
+// -- FingerprintNoCT: SHA-256 of the encoding of the TBS with Raw dropped and the filtered list
+//@   at call asn1.Marshal assert typeis(arg0, tbsCertificate) && tbsOf(arg0).Raw == nil && same(tbsOf(arg0).Extensions, extensions)
+//@   at call asn1.Marshal assert tbsOf(arg0).Version == old(in.TBSCertificate.Version) && tbsOf(arg0).SerialNumber == old(in.TBSCertificate.SerialNumber) && same(tbsOf(arg0).Issuer.FullBytes, old(in.TBSCertificate.Issuer.FullBytes)) && same(tbsOf(arg0).Subject.FullBytes, old(in.TBSCertificate.Subject.FullBytes)) && same(tbsOf(arg0).PublicKey.Raw, old(in.TBSCertificate.PublicKey.Raw))
+//@   at call asn1.Marshal assert forall(j, 0, len(extensions), !isCTOid(extensions[j].Id))
+//@   at call SHA256Fingerprint#4 assert same(arg0, tbsbytes)
+// -- SPKISubjectFingerprint: one SHA-256 stream fed the SPKI, then the subject, then summed
+//@   at call Write#1 assert arg0 == hasher && same(arg1, old(in.TBSCertificate.PublicKey.Raw))
+//@   at call Write#2 assert arg0 == hasher && same(arg1, old(in.TBSCertificate.Subject.FullBytes))
+//@   at call Sum assert arg0 == hasher && arg1 == nil
+// -- SelfSigned: the self-signature check is made only for equal raw names, on out's own fields
+//@   at call CheckSignature assert arg0 == out && eq(out.RawSubject, out.RawIssuer) && arg1 == out.SignatureAlgorithm && same(arg2, out.RawTBSCertificate) && same(arg3, out.Signature)
+// -- checkpoint before the extension loop (the call of Time.Sub in the ValidityPeriod line)
+//@   at call Time).Sub assert [raw] same(out.Raw, old(in.Raw)) && same(out.RawTBSCertificate, old(in.TBSCertificate.Raw)) && same(out.RawSubjectPublicKeyInfo, old(in.TBSCertificate.PublicKey.Raw)) && same(out.RawSubject, old(in.TBSCertificate.Subject.FullBytes)) && same(out.RawIssuer, old(in.TBSCertificate.Issuer.FullBytes))
+//@   at call Time).Sub assert [version] out.Version == old(in.TBSCertificate.Version) + 1
+//@   at call Time).Sub assert [selfsigned] out.SelfSigned ==> eq(out.RawSubject, out.RawIssuer) && ghost.sigOK(out, out.SignatureAlgorithm, out.RawTBSCertificate, out.Signature)
+//@   at call Time).Sub assert [md5] fp16(out.FingerprintMD5, old(string(in.Raw)))
+//@   at call Time).Sub assert [sha1] fp20(out.FingerprintSHA1, old(string(in.Raw)))
+//@   at call Time).Sub assert [sha256] fp32(out.FingerprintSHA256, old(string(in.Raw)))
+//@   at call Time).Sub assert [spki] fp32(out.SPKIFingerprint, old(string(in.TBSCertificate.PublicKey.Raw)))
+//@   at call Time).Sub assert [tbs] fp32(out.TBSCertificateFingerprint, old(string(in.TBSCertificate.Raw)))
+//@   at call Time).Sub assert [validity] arg0 == old(in.TBSCertificate.Validity.NotAfter) && arg1 == old(in.TBSCertificate.Validity.NotBefore)
+
+// getPublicKeyAlgorithmFromOID (helper of parseCertificate): a table lookup, no effect on memory.
+//@ func getPublicKeyAlgorithmFromOID
+//@   modifies nothing
+//@   terminates
